@@ -372,6 +372,9 @@ func pitCase(caseID string, seed int64) {
 		}
 		break
 	}
+	if caseID == "pit/0" {
+		r.Sample(map[string]interface{}{"case": caseID, "monitor": "b", "mode": w.Mode, "prefix_entries": len(w.Prefix), "later": w.Later, "restored_equals_X": !bad})
+	}
 	r.Count("b_cases_"+w.Mode, 1)
 	if bad {
 		r.Count("b_cases_with_difference", 1)
